@@ -79,6 +79,37 @@ def fmt_prim(fmt: Any) -> Optional[Tuple[int, str]]:
     return STRUCT_CODES[s], order
 
 
+def fmt_fields(fmt: Any) -> Optional[List[Tuple[int, str]]]:
+    """fields of a multi-character struct format with an explicit standard-size byte order ('>BIIQ'): [(width, order), ...]"""
+    s = fmt.decode() if isinstance(fmt, bytes) else fmt
+    if not isinstance(s, str) or not s:
+        return None
+    order = "big"
+    if s[0] in "><!":
+        order = "little" if s[0] == "<" else "big"
+        s = s[1:]
+    elif len(s) > 1:
+        return None          # native alignment: sizes and padding are platform dependent
+    out = []
+    for ch in s:
+        if ch not in STRUCT_CODES:
+            return None
+        out.append((STRUCT_CODES[ch], order))
+    return out or None
+
+
+def struct_call(t: Term, method: str) -> Optional[Tuple[Any, Tuple[Term, ...]]]:
+    """(format, remaining arguments) of struct.<method>(FMT, ...) or struct.Struct(FMT).<method>(...)"""
+    if t[0] != "call" or t[3]:
+        return None
+    if t[1] == ("g", "ext:struct." + method) and t[2] and t[2][0][0] == "c":
+        return t[2][0][1], t[2][1:]
+    f = t[1]
+    if f[0] == "a" and f[2] == method and f[1][0] == "call" and f[1][1] == ("g", "ext:struct.Struct") and len(f[1][2]) == 1 and f[1][2][0][0] == "c":
+        return f[1][2][0][1], t[2]
+    return None
+
+
 def _unit_resolve(conds: frozenset) -> frozenset:
     """`a or b or c` together with `not a`, `not b` leaves `c` (an if/elif chain whose else raises)."""
     from .terms import assume
@@ -108,6 +139,8 @@ class Extractor:
         self.repo = repo
         self.w = walker or Walker(repo, 0)
         self.codecs: Dict[str, Codec] = {}
+        self._multi: Dict[int, List[Tuple[int, str]]] = {}
+        self._multi_used: Dict[int, Set[int]] = {}
         base = SER + "Serializable"
         repo.cls(base)
         for q in repo.subclasses(base):
@@ -183,11 +216,12 @@ class Extractor:
                 return ("ip16", attr_of(x[1]))
             if x[0] == "c" and isinstance(x[1], bytes):
                 return ("const", x[1])
-            if x[0] == "call" and x[1] == ("g", "ext:struct.pack") and len(x[2]) == 2 and x[2][0][0] == "c":
-                fp = fmt_prim(x[2][0][1])
+            sc = struct_call(x, "pack")
+            if sc is not None and len(sc[1]) == 1:
+                fp = fmt_prim(sc[0])
                 if fp is None:
                     return None
-                return int_prim(x[2][1], fp[0], fp[1])
+                return int_prim(sc[1][0], fp[0], fp[1])
             if x[0] == "call" and x[1][0] == "a" and x[1][2] == "to_bytes" and len(x[2]) == 3:
                 ln, bo, sg = x[2]
                 if is_int_const(ln) and bo[0] == "c" and sg == C(False):
@@ -205,6 +239,17 @@ class Extractor:
             handled = False
             if fn == ("a", f, "write") and len(args) == 1:
                 handled = True
+                sc = struct_call(args[0], "pack")
+                fields = fmt_fields(sc[0]) if sc is not None else None
+                if sc is not None and fields is not None and len(fields) > 1 and len(fields) == len(sc[1]) and not e.loops \
+                        and not (e.pc and any(cj.prov not in ("raise-surv",) for cj in e.pc)):
+                    # one pack call writing several fixed-width integers
+                    many = [int_prim(x, w_, o_) for x, (w_, o_) in zip(sc[1], fields)]
+                    if all(m is not None and m != ("lenmark",) for m in many):
+                        seq.extend(many)     # type: ignore
+                        continue
+                    c.problems.append("%s:%d writer statement outside the idiom set: %s" % (fi.module.path, e.line, show(e.term)[:70]))
+                    continue
                 p = classify_write(args[0], e)
             elif SER + "stream_serialize_vlq" in e.targets and len(args) == 2 and args[0] == f:
                 handled = True
@@ -267,16 +312,23 @@ class Extractor:
                         return ("bytag", inner[1], None), k
                 return None
             return None
-        # struct.unpack(FMT, safe_read(f, n))[0]
-        if t[0] == "s" and t[2] == C(0) and t[1][0] == "call" and t[1][1] == ("g", "ext:struct.unpack") and len(t[1][2]) == 2 and t[1][2][0][0] == "c":
-            fp = fmt_prim(t[1][2][0][1])
-            inner = self._classify_read(c, t[1][2][1], fvar, reads)
-            if fp is not None and inner is not None and inner[0][0] == "raw":
-                if inner[0][1] != fp[0]:
-                    c.problems.append("struct format width %d but %d bytes read" % (fp[0], inner[0][1]))
-                    return None
-                return ("uint", fp[0], fp[1], None), inner[1]
-            return None
+        # struct.unpack(FMT, safe_read(f, n))[i]  /  struct.Struct(FMT).unpack(safe_read(f, n))[i]
+        if t[0] == "s" and is_int_const(t[2]) and t[1][0] == "call":
+            sc = struct_call(t[1], "unpack")
+            if sc is not None and len(sc[1]) == 1:
+                fields = fmt_fields(sc[0])
+                inner = self._classify_read(c, sc[1][0], fvar, reads)
+                i = t[2][1]
+                if fields is not None and inner is not None and inner[0][0] == "raw" and 0 <= i < len(fields):
+                    if inner[0][1] != sum(w_ for w_, _o in fields):
+                        c.problems.append("struct format is %d bytes wide but %d bytes are read" % (sum(w_ for w_, _o in fields), inner[0][1]))
+                        return None
+                    if len(fields) > 1:
+                        self._multi.setdefault(inner[1], fields)
+                        self._multi_used.setdefault(inner[1], set()).add(i)
+                        return ("uint", fields[i][0], fields[i][1], None), (inner[1], i)   # type: ignore
+                    return ("uint", fields[0][0], fields[0][1], None), inner[1]
+                return None
         if t[0] == "call" and t[1] == ("g", "builtin:int.from_bytes") and len(t[2]) == 3 and t[2][1][0] == "c" and t[2][2] == C(False):
             inner = self._classify_read(c, t[2][0], fvar, reads)
             if inner is not None and inner[0][0] == "raw":
@@ -397,8 +449,10 @@ class Extractor:
         for k_, a in value[3]:
             if k_ != "#":
                 bind.append((k_, a))
-        items: List[Tuple[int, Prim, Optional[str]]] = []
+        items: List[Tuple[Any, Prim, Optional[str]]] = []
         used: Set[int] = set()
+        self._multi = {}
+        self._multi_used = {}
         for pname, a in bind:
             # id computed from the raw span: sha256d(f.read(end - start)) after f.seek(start)
             if a[0] == "call" and a[1] == ("g", "skepticoin.hash.sha256d") and len(a[2]) == 1 and tag_of_term(a[2][0]) is not None \
@@ -443,7 +497,11 @@ class Extractor:
                 if used_elsewhere:
                     c.problems.append("%s:%d read compared in a way that is not a strict constant check: %s" % (fi.module.path, e.line, show(untag(t))[:60]))
                 items.append((k, ("ignored", n), None))
-        items.sort(key=lambda it: it[0])
+        for k, fields in self._multi.items():
+            for i, (w_, _o) in enumerate(fields):
+                if i not in self._multi_used.get(k, set()):
+                    items.append(((k, i), ("ignored", w_), None))
+        items.sort(key=lambda it: it[0] if isinstance(it[0], tuple) else (it[0], 0))
         c.reader = [p for _, p, _ in items]
         c.reader_args = [a for _, _, a in items]
 
